@@ -196,6 +196,12 @@ def opaqueFail (cfg : Cfg) : Node → List Op → Bool
     | .ok t' => opaqueFail cfg t' rest
     | .error e => e == .type && (match Spec.refOp (norm t) op with | .ok _ => true | .error _ => false)
 
+/-- the outcome of this patch depends on the REMOVE_VAL fact: with the documented comparison
+    (containers too) the model answers differently — result or error -/
+def rmvalDepends (cfg : Cfg) (body : Bytes) (ops : List Op) (cond : Option Condition) : Bool :=
+  !cfg.rmvalCanon && ops.any (fun o => o.kind == .removeVal) &&
+    (applyWithCondition cfg body ops cond != applyWithCondition { cfg with rmvalCanon := true } body ops cond)
+
 def stepPf (pc : PfCfg) (line : String) : Unit × String :=
   match line.splitOn " " with
   | "pf" :: sh :: cr :: seedh :: mh :: ch :: opss =>
@@ -218,7 +224,8 @@ def stepPf (pc : PfCfg) (line : String) : Unit × String :=
          | .ok (body, _) =>
            (match applyWithCondition pc.cfg body ops cond with
             | .error e => if pc.smap.of e != documentedMap.of e then "\t#F:C13-status-mapping" else ""
-            | .ok _ => "")
+            | .ok _ => "") ++
+           (if rmvalDepends pc.cfg body ops cond then "\t#F:C13-removeval-skips-containers" else "")
          | .error _ => "")
       let f2 :=
         if r.status == pc.smap.type then
@@ -265,21 +272,14 @@ def step (cfg : Cfg) (pc : PfCfg) (_ : Unit) (line : String) : Unit × String :=
                if condOk && opaqueFail cfg t ops then "\t#F:C13-spliced-value-opaque" else ""
              | .error _ => "")
           else ""
-        ((), s!"err {e}{fo}")
+        let fr := if rmvalDepends cfg body ops cond then "\t#F:C13-removeval-skips-containers" else ""
+        ((), s!"err {e}{fo}{fr}")
       | .ok out =>
         let w := wf out
         let f1 := if w then "" else "\t#F:C13-unvalidated-op-value"
         let f2 := if nanMet cfg body cond then "\t#F:C13-nan-compares-equal" else ""
         -- the Spec's document differs from what the model stored (unrepaired REMOVE_VAL: containers skipped)
-        let f3 :=
-          if ops.any (fun o => o.kind == .removeVal) then
-            (match parse body with
-             | .ok t =>
-               (match Spec.refOps t ops, parse out with
-                | .ok d, .ok g => if serialize d == serialize g then "" else "\t#F:C13-removeval-skips-containers"
-                | _, _ => "")
-             | .error _ => "")
-          else ""
+        let f3 := if rmvalDepends cfg body ops cond then "\t#F:C13-removeval-skips-containers" else ""
         -- `apn`: NaN payload bits are platform-defined; both sides print NaN leaves canonically
         let shown := if verb == "apn" then canonNaN out.length 1 out else out
         ((), s!"out {hexOrDash shown} wf={if w then 1 else 0}{f1}{f2}{f3}")
